@@ -105,7 +105,9 @@ def harnesses(tier, seed):
         fixed = [(a, b) for a in core for b in core if 1 <= nvars(a) + nvars(b) <= 4]
         pairs = fixed + [p for p in rich[:70] + rest[:70] if p not in set(fixed)]
     else:
-        pairs = allpairs
+        # thorough: a seeded third of all pairs (the full set is ~11 600 conditions; sized to ~20 minutes of wall time)
+        rng.shuffle(allpairs)
+        pairs = allpairs[: len(allpairs) // 3]
     hs = []
     i = 0
     for a, b in pairs:
